@@ -1,13 +1,15 @@
 """C20  Raptor workers and masters account for every request (DESIGN 5 / C20)"""
 
 import ast
+import copy
 
 from ..model import (walk, dotted, call_name, kwarg, unparse, short, UNKNOWN,
-                     root_name, AnalysisError, calls_in)
+                     root_name, AnalysisError, calls_in, stores_in_target)
 from ..cfg import cfg_of
-from ..flow import guards, must_pass, Exploration, loop_slice
+from ..flow import (guards, must_pass, Exploration, loop_slice, reaching_defs,
+                    Deps)
 from .. import idioms as I
-from .c14 import Interp, UNK, _key_of, resolve_aliases, truth
+from .c14 import Interp, UNK, _key_of, resolve_aliases, truth, deref
 
 WD   = ('raptor/worker_default.py', 'DefaultWorker')
 WK   = ('raptor/worker.py', 'Worker')
@@ -93,21 +95,576 @@ def r20_1(prog, rep, rid='R20.1', tier='quick'):
 
 
 # ------------------------------------------------------------------------------
-# R20.2
+# R20.2 / R20.8   occupancy writer of the worker
 #
-def _marks(prog, f):
-    """[(kind, index text, value, stmt)] for self._resources[K][i] = v"""
+def _const_path(e):
+    """access path whose subscripts are all constants (nothing in it can be
+    re-bound between a definition and a use)"""
+    while isinstance(e, (ast.Attribute, ast.Subscript)):
+        if isinstance(e, ast.Subscript) and \
+                not isinstance(e.slice, ast.Constant):
+            return False
+        e = e.value
+    return isinstance(e, ast.Name)
+
+
+def _is_prefix(p, text):
+    return text == p or (text.startswith(p) and text[len(p)] in '[.')
+
+
+class _Paths:
+    """Flow-sensitive reading of the access paths of one function: a local
+    name holding a cached path (`pool = self._resources['cores']`, `held =
+    task['slots'][0]`) reads as that path wherever that definition is the only
+    one that reaches; the value variable of `for i, v in enumerate(L)` reads
+    as `L[i]` while nothing was stored into L in the iteration."""
+
+    def __init__(self, prog, f):
+        self.prog, self.f = prog, f
+        self.g = cfg_of(f)
+        self.smap = I.stmt_node_map(self.g)
+        self._rd = {}
+        self._stores = sorted({unparse(t) for k, t, s in I.stores(f.node)
+                               if k in ('assign', 'aug', 'del')})
+        self._cell_stores = None
+
+    def rdefs(self, name, nid):
+        k = (name, nid)
+        if k not in self._rd:
+            self._rd[k] = reaching_defs(self.g, name, nid)
+        return self._rd[k]
+
+    def same_binding(self, names, n1, n2):
+        """each name has one reaching definition, the same at both nodes"""
+        for nm in names:
+            if nm in self.f.params:
+                if self.rdefs(nm, n1) or self.rdefs(nm, n2):
+                    return False
+                continue
+            a, b = self.rdefs(nm, n1), self.rdefs(nm, n2)
+            if len(a) != 1 or len(b) != 1 or a[0][0] is not b[0][0]:
+                return False
+        return True
+
+    def _path_of_name(self, name, nid, depth):
+        if name == 'self' or name in self.f.params or depth > 5:
+            return None
+        ds = self.rdefs(name, nid)
+        if len(ds) != 1:
+            return None
+        dn, val = ds[0]
+        if val is None or dn.kind != 'stmt' or \
+                not isinstance(dn.ast, ast.Assign) or \
+                len(dn.ast.targets) != 1 or \
+                not isinstance(dn.ast.targets[0], ast.Name) or \
+                not I.is_path(val):
+            return None
+        c = self.canon(val, dn.id, depth + 1)
+        r = root_name(c)
+        if (r != 'self' and r not in self.f.params) or not _const_path(c):
+            return None
+        if r in self.f.params and self.rdefs(r, nid):
+            return None                     # the parameter itself is re-bound
+        text = unparse(c)
+        if any(_is_prefix(st, text) for st in self._stores):
+            return None                     # (a prefix of) the path is re-bound
+        return c
+
+    def canon(self, expr, nid, depth=0):
+        """copy of expr with cached paths spelled out, as read at node nid"""
+        P = self
+
+        class T(ast.NodeTransformer):
+            def visit_Name(self, n):
+                if isinstance(n.ctx, ast.Load):
+                    r = P._path_of_name(n.id, nid, depth)
+                    if r is not None:
+                        return copy.deepcopy(r)
+                return n
+        out = T().visit(copy.deepcopy(expr))
+        for n in ast.walk(out):
+            if hasattr(n, 'ctx'):
+                n.ctx = ast.Load()
+        return out
+
+    @staticmethod
+    def _as_cell(c):
+        if isinstance(c, ast.Subscript) and \
+                isinstance(c.value, ast.Subscript) and \
+                dotted(c.value.value) == RES and \
+                isinstance(c.value.slice, ast.Constant):
+            return c.value.slice.value, c.slice
+        return None
+
+    def cell(self, expr, nid):
+        """(kind, index expr) if expr, read at node nid, denotes the cell
+        self._resources[kind][index]"""
+        hit = self._as_cell(self.canon(expr, nid))
+        if hit or not isinstance(expr, ast.Name):
+            return hit
+        ds = self.rdefs(expr.id, nid)
+        if len(ds) != 1 or ds[0][0].kind != 'for':
+            return None
+        h = ds[0][0]
+        it, tg = h.ast.iter, h.ast.target
+        if not (isinstance(it, ast.Call) and call_name(it) == 'enumerate' and
+                len(it.args) == 1 and not it.keywords and
+                isinstance(tg, (ast.Tuple, ast.List)) and len(tg.elts) == 2
+                and all(isinstance(x, ast.Name) for x in tg.elts) and
+                tg.elts[1].id == expr.id and tg.elts[0].id != expr.id):
+            return None
+        base = self.canon(it.args[0], h.id)
+        if not (isinstance(base, ast.Subscript) and
+                dotted(base.value) == RES and
+                isinstance(base.slice, ast.Constant)):
+            return None
+        K = base.slice.value
+        if not self.same_binding([tg.elts[0].id], nid, nid) or \
+                self.rdefs(tg.elts[0].id, nid)[0][0] is not h:
+            return None
+        # the element was read when the iteration started: no store into the
+        # list between that and this node
+        body = self.g.loop_body[h.id]
+        for m in self.cell_stores():
+            if m['K'] != K or m['node'].id not in body or \
+                    m['node'].id == nid:
+                continue
+            if nid in self.g.reachable(m['node'].id, no_back=True):
+                return None
+        return K, ast.Name(id=tg.elts[0].id, ctx=ast.Load())
+
+    def cell_stores(self):
+        """stores `self._resources[K][i] = v` of the function (through cached
+        paths as well): [{K, idx, val, node, stmt}]; any other write below
+        self._resources is a shape this analysis does not know"""
+        if self._cell_stores is not None:
+            return self._cell_stores
+        out = []
+        f, g = self.f, self.g
+        for n in g.nodes:
+            if n.kind != 'stmt' or n.ast is None or isinstance(
+                    n.ast, (ast.FunctionDef, ast.AsyncFunctionDef,
+                            ast.ClassDef)):
+                continue
+            for kind, target, stmt in I.stores(n.ast):
+                c = self.canon(target, n.id)
+                text = unparse(c)
+                if not _is_prefix(RES, text):
+                    continue
+                hit = self._as_cell(c)
+                if kind == 'mutate' and hit is not None:
+                    # a method call on the cell's value (an int): not a write
+                    continue
+                if hit is None or kind != 'assign' or \
+                        not isinstance(stmt, ast.Assign) or \
+                        len(stmt.targets) != 1 or stmt.targets[0] is not target:
+                    raise AnalysisError(
+                        'UNRECOGNISED-IDIOM %s: `%s` writes the occupancy '
+                        'other than by a store to one cell '
+                        'self._resources[kind][i]' % (f.where, short(stmt, 60)))
+                out.append({'K': hit[0], 'idx': hit[1],
+                            'val': self.prog.fold(f.module, stmt.value, f.cls),
+                            'node': n, 'stmt': stmt})
+        self._cell_stores = out
+        return out
+
+
+def _every_iteration_passes(g, head, nid):
+    """every normal path through one iteration of the loop passes node nid
+    (no `continue`, `break` or `return` around it)"""
+    start = None
+    for e in g.succ[head]:
+        if e.enter == head:
+            start = e.dst
+    if start is None:
+        return False
+    body = g.loop_body[head]
+    r = g.reachable(start, skip_nodes={nid}, labels=NONEXC)
+    return head not in r and all(x in body for x in r)
+
+
+def _is_new_list(v):
+    return (isinstance(v, (ast.List, ast.Tuple)) and not v.elts) or (
+        isinstance(v, ast.Call) and isinstance(v.func, ast.Name) and
+        v.func.id == 'list' and not v.args and not v.keywords)
+
+
+def _names(e):
+    return frozenset(n.id for n in ast.walk(e) if isinstance(n, ast.Name))
+
+
+class _AllocFlow:
+    """All paths of DefaultWorker._alloc over the abstract state
+
+        (what the local names hold: a list object / a constant,
+         which cells were marked busy and in which list their index was
+         recorded, what task['slots'] holds, truth of the value returned)
+
+    Loops are entered at most once per path; a test on a name whose value is
+    known only follows the feasible edge."""
+
+    def __init__(self, prog, f):
+        self.prog, self.f = prog, f
+        self.P = _Paths(prog, f)
+        self.g = self.P.g
+        self.task = ([p for p in f.params if p != 'self'] or [None])[0]
+        stores = self.P.cell_stores()
+        self.marks = [m for m in stores if m['val'] is UNK or m['val']]
+        self.frees = [m for m in stores if m['val'] is not UNK
+                      and not m['val']]
+        self.store_at = {m['node'].id: m for m in stores}
+        self.rollback = {}          # loop head id -> (kind, source of indices)
+        for m in self.frees:
+            head, src = self._rollback_head(m)
+            self.rollback[head] = (m['K'], src)
+        self.terminals = None
+
+    def _rollback_head(self, m):
+        g, P, f = self.g, self.P, self.f
+        idx = m['idx']
+        why = 'its index is not the variable of a loop over the recorded ' \
+              'indices'
+        if isinstance(idx, ast.Name):
+            ds = P.rdefs(idx.id, m['node'].id)
+            if len(ds) == 1 and ds[0][0].kind == 'for' and \
+                    isinstance(ds[0][0].ast.target, ast.Name) and \
+                    ds[0][0].id in m['node'].loops:
+                h = ds[0][0]
+                it = h.ast.iter
+                src = None
+                if self._key(it) is not None and \
+                        root_name(it) not in f.params:
+                    src = ('name', self._key(it))
+                elif unparse(P.canon(it, h.id)) == "%s['slots'][0][%r]" % (
+                        self.task, m['K']):
+                    src = ('slots', None)
+                if src is None:
+                    why = 'the loop does not iterate a list of indices'
+                elif not _every_iteration_passes(g, h.id, m['node'].id):
+                    why = 'not every iteration of the loop frees its cell'
+                else:
+                    return h.id, src
+        raise AnalysisError('UNRECOGNISED-IDIOM %s: `%s` frees a cell inside '
+                            'the allocation, but %s' % (f.where, short(
+                                m['stmt'], 50), why))
+
+    # --------------------------------------------------------------------------
+    @staticmethod
+    def _truth_of(e, b):
+        """truth of test atom e under the bindings b, or None"""
+        def val(x):
+            if isinstance(x, ast.Constant):
+                return ('c', x.value)
+            k = _AllocFlow._key(x)
+            return b.get(k) if k is not None else None
+        k = _AllocFlow._key(e)
+        if k is not None:
+            v = b.get(k)
+            if v is not None and v[0] == 'c':
+                return bool(v[1])
+            return None
+        if isinstance(e, ast.Compare) and len(e.ops) == 1:
+            l, r = val(e.left), val(e.comparators[0])
+            if l is None or r is None:
+                return None
+            op = e.ops[0]
+            if not isinstance(op, (ast.Is, ast.IsNot, ast.Eq, ast.NotEq)):
+                return None
+            neg = isinstance(op, (ast.IsNot, ast.NotEq))
+            if l[0] == 'c' and r[0] == 'c':
+                if isinstance(op, (ast.Is, ast.IsNot)) and not (
+                        l[1] is None or r[1] is None or
+                        isinstance(l[1], bool) or isinstance(r[1], bool)):
+                    return None
+                same = type(l[1]) is type(r[1]) and l[1] == r[1]
+                return same != neg
+            if 'obj' in (l[0], r[0]) and 'c' in (l[0], r[0]):
+                c = l if l[0] == 'c' else r
+                if c[1] is None or isinstance(c[1], (bool, int, str)):
+                    return neg              # a list is none of those
+            if l[0] == 'obj' and r[0] == 'obj' and \
+                    isinstance(op, (ast.Is, ast.IsNot)):
+                return (l == r) != neg
+        return None
+
+    @staticmethod
+    def _key(e):
+        """key of a local container: a name, or a constant-key path below a
+        local name (`alloc['cores']`)"""
+        if isinstance(e, ast.Name):
+            return e.id
+        if isinstance(e, (ast.Subscript, ast.Attribute)) and \
+                _const_path(e) and root_name(e) != 'self':
+            return unparse(e)
+        return None
+
+    @staticmethod
+    def _pure(e):
+        return all(isinstance(n, (ast.Name, ast.Constant, ast.Compare,
+                                  ast.BoolOp, ast.UnaryOp, ast.expr_context,
+                                  ast.cmpop, ast.boolop, ast.unaryop))
+                   for n in ast.walk(e))
+
+    @staticmethod
+    def _forget(b, key):
+        """remembered test outcomes that read the local `key` is rooted in"""
+        root = key.split('[')[0].split('.')[0]
+        for k in [k for k, v in b.items() if k.startswith('?') and
+                  root in v[2]]:
+            del b[k]
+
+    @staticmethod
+    def _drop(b, key):
+        for k in [k for k in b if k == key or _is_prefix(key, k)]:
+            del b[k]
+        _AllocFlow._forget(b, key)
+
+    def _bind(self, b, key, value, nid):
+        self._drop(b, key)
+        vk = self._key(value)
+        if _is_new_list(value):
+            b[key] = ('obj', (nid, key))
+        elif isinstance(value, ast.Dict) and all(
+                isinstance(k, ast.Constant) for k in value.keys):
+            b[key] = ('dict', (nid, key))
+            for k, v in zip(value.keys, value.values):
+                self._bind(b, '%s[%r]' % (key, k.value), v, nid)
+        elif isinstance(value, ast.Call) and isinstance(value.func, ast.Name) \
+                and value.func.id == 'dict' and not value.args and \
+                all(kw.arg for kw in value.keywords):
+            b[key] = ('dict', (nid, key))
+            for kw in value.keywords:
+                self._bind(b, '%s[%r]' % (key, kw.arg), kw.value, nid)
+        elif vk is not None and vk in b:
+            for k, v in [(k, v) for k, v in b.items()
+                         if k == vk or _is_prefix(vk, k)]:
+                b[key + k[len(vk):]] = v
+        elif isinstance(value, ast.Constant) and (
+                value.value is None or
+                isinstance(value.value, (bool, int, str))):
+            b[key] = ('c', value.value)
+
+    def _members(self, b, key):
+        """[(constant key, value)] of the dict bound to `key`"""
+        out = []
+        for k, v in b.items():
+            if k.startswith(key + '[') and k.endswith(']') and \
+                    k.count('[') == key.count('[') + 1:
+                try:
+                    out.append((ast.literal_eval(k[len(key) + 1:-1]), v))
+                except Exception:                           # noqa
+                    pass
+        return out
+
+    @staticmethod
+    def _lose(marks, names):
+        """an index variable is re-bound: marks not yet recorded under it
+        never will be"""
+        return frozenset((K, it, nm, ('lost' if r is None and nm & names
+                                      else r)) for K, it, nm, r in marks)
+
+    @staticmethod
+    def _record(marks, arg, obj):
+        t = unparse(arg)
+        return frozenset((K, it, nm, (obj if r is None and it == t else r))
+                         for K, it, nm, r in marks)
+
+    def _slots_of(self, value, b):
+        el = value.elts[0] if isinstance(value, (ast.List, ast.Tuple)) and \
+            len(value.elts) == 1 else None
+        pairs = []
+        ek = self._key(el) if el is not None else None
+        if isinstance(el, ast.Dict):
+            for k, v in zip(el.keys, el.values):
+                if isinstance(k, ast.Constant):
+                    pairs.append((k.value, v))
+        elif isinstance(el, ast.Call) and el.keywords and not el.args:
+            pairs = [(kw.arg, kw.value) for kw in el.keywords if kw.arg]
+        elif ek is not None and b.get(ek, ('?',))[0] == 'dict':
+            return frozenset(self._members(b, ek))
+        else:
+            raise AnalysisError("UNRECOGNISED-IDIOM %s: task['slots'] is not "
+                                "a one-element list of a dict / Slot(...)"
+                                % self.f.where)
+        out = []
+        for k, v in pairs:
+            vk = self._key(v)
+            out.append((k, b.get(vk, ('?', unparse(v)))
+                        if vk is not None else ('?', unparse(v))))
+        return frozenset(out)
+
+    def transfer(self, node, edge, st):
+        if edge.label == 'exc':
+            return st                       # the effect did not take place
+        binds, marks, slots, ret = st
+        a = node.ast
+        if node.kind == 'test':
+            b = dict(binds)
+            t = self._truth_of(a, b)
+            fk = None
+            if t is None and self._pure(a):
+                # a test on locals only: its outcome is remembered until
+                # one of them is re-bound (correlated tests)
+                fk = '?' + unparse(a)
+                if fk in b:
+                    t = b[fk][1]
+            if t is not None:
+                return st if (edge.label == 'T') == t else None
+            if fk is None:
+                return st
+            b[fk] = ('t', edge.label == 'T', _names(a))
+            return (frozenset(b.items()), marks, slots, ret)
+        if node.kind == 'for':
+            b = dict(binds)
+            rb = self.rollback.get(node.id)
+            if rb is not None:
+                K, src = rb
+                obj = b.get(src[1]) if src[0] == 'name' else \
+                    dict(slots or ()).get(K)
+                marks = frozenset(m for m in marks
+                                  if not (m[0] == K and m[3] == obj))
+            if edge.label == 'iter':
+                names = frozenset(stores_in_target(a.target))
+                marks = self._lose(marks, names)
+                for nm in names:
+                    self._drop(b, nm)
+            return (frozenset(b.items()), marks, slots, ret)
+        if node.kind == 'with':
+            b = dict(binds)
+            for it in a.items:
+                if it.optional_vars is not None:
+                    for nm in stores_in_target(it.optional_vars):
+                        self._drop(b, nm)
+            return (frozenset(b.items()), marks, slots, ret)
+        if node.kind != 'stmt' or a is None:
+            return st
+        b = dict(binds)
+        if isinstance(a, ast.Assign):
+            for t in a.targets:
+                if isinstance(t, ast.Name):
+                    marks = self._lose(marks, frozenset([t.id]))
+                    self._bind(b, t.id, a.value, node.id)
+                elif isinstance(t, (ast.Tuple, ast.List, ast.Starred)):
+                    names = frozenset(stores_in_target(t))
+                    marks = self._lose(marks, names)
+                    for nm in names:
+                        self._drop(b, nm)
+                elif isinstance(t, ast.Subscript) and self.task and \
+                        unparse(self.P.canon(t, node.id)) == \
+                        "%s['slots']" % self.task:
+                    slots = self._slots_of(a.value, b)
+                elif self._key(t) is not None and \
+                        root_name(t) not in self.f.params:
+                    self._bind(b, self._key(t), a.value, node.id)
+            m = self.store_at.get(node.id)
+            if m is not None and (m['val'] is UNK or m['val']):
+                rec = None
+                idx = m['idx']
+                if isinstance(idx, ast.Name):
+                    # a loop over the list of indices itself: recorded by
+                    # construction
+                    ds = self.P.rdefs(idx.id, node.id)
+                    if len(ds) == 1 and ds[0][0].kind == 'for' and \
+                            isinstance(ds[0][0].ast.target, ast.Name) and \
+                            self._key(ds[0][0].ast.iter) is not None:
+                        rec = b.get(self._key(ds[0][0].ast.iter))
+                        if rec is not None and rec[0] != 'obj':
+                            rec = None
+                marks = marks | {(m['K'], unparse(idx), _names(idx), rec)}
+        elif isinstance(a, (ast.AugAssign, ast.AnnAssign)):
+            t = a.target
+            tk = self._key(t)
+            if tk is not None:
+                if isinstance(a, ast.AugAssign) and \
+                        isinstance(a.op, ast.Add) and \
+                        isinstance(a.value, (ast.List, ast.Tuple)) and \
+                        b.get(tk, ('?',))[0] == 'obj':
+                    for x in a.value.elts:
+                        marks = self._record(marks, x, b[tk])
+                    self._forget(b, tk)
+                elif isinstance(a, ast.AnnAssign) and a.value is not None:
+                    marks = self._lose(marks, frozenset([tk]))
+                    self._bind(b, tk, a.value, node.id)
+                else:
+                    marks = self._lose(marks, frozenset([tk]))
+                    self._drop(b, tk)
+        elif isinstance(a, ast.Expr) and isinstance(a.value, ast.Call):
+            c = a.value
+            fn = c.func
+            if isinstance(fn, ast.Attribute) and \
+                    fn.attr in ('append', 'insert', 'extend', 'add') and \
+                    c.args and not c.keywords:
+                rk = self._key(fn.value)
+                obj = b.get(rk, ('?', rk)) if rk is not None else \
+                    ('?', unparse(fn.value))
+                if rk is not None:
+                    self._forget(b, rk)
+                arg = c.args[-1]
+                args = arg.elts if fn.attr == 'extend' and isinstance(
+                    arg, (ast.List, ast.Tuple)) else [arg]
+                for x in args:
+                    marks = self._record(marks, x, obj)
+            elif call_name(c) == 'self._dealloc' and c.args and \
+                    unparse(c.args[0]) == self.task and slots:
+                sl = dict(slots)
+                marks = frozenset(m for m in marks
+                                  if not (m[3] is not None and
+                                          sl.get(m[0]) == m[3]))
+        elif isinstance(a, ast.Return):
+            v = a.value
+            if v is None:
+                ret = 'F'
+            elif isinstance(v, ast.Constant):
+                ret = 'T' if v.value else 'F'
+            elif self._key(v) is not None and \
+                    b.get(self._key(v), ('?',))[0] == 'c':
+                ret = 'T' if b[self._key(v)][1] else 'F'
+            else:
+                ret = '?'
+        return (frozenset(b.items()), marks, slots, ret)
+
+    def run(self):
+        if self.terminals is not None:
+            return self.terminals
+        g = self.g
+        init = (frozenset(), frozenset(), None, None)
+        try:
+            ex = Exploration(g, g.entry.id, init, self.transfer,
+                             max_states=60000)
+        except RuntimeError as e:
+            raise AnalysisError('%s: %s' % (self.f.where, e))
+        self.ex = ex
+        self.terminals = ex.terminals
+        return self.terminals
+
+
+_FLOWS = {}
+
+
+def _alloc_flow(prog):
+    fa = prog.method(WD[0], WD[1], '_alloc')
+    k = id(fa.node)
+    if k not in _FLOWS:
+        _FLOWS.clear()
+        _FLOWS[k] = (fa.node, _AllocFlow(prog, fa))
+    return _FLOWS[k][1]
+
+
+def _rebinds_resources(prog):
+    """methods of DefaultWorker (other than __init__) that re-bind
+    self._resources or one of its lists as a whole"""
+    W = prog.cls(*WD)
     out = []
-    for kind, target, stmt in I.stores(f.node):
-        if kind != 'assign' or not isinstance(target, ast.Subscript):
+    for mname, m in sorted(W.methods.items()):
+        if mname == '__init__':
             continue
-        # cached `x = self._resources[K]` locals are looked through
-        target = ast.parse(resolve_aliases(f, target), mode='eval').body
-        b = target.value
-        if isinstance(b, ast.Subscript) and dotted(b.value) == RES and \
-                isinstance(b.slice, ast.Constant):
-            out.append((b.slice.value, unparse(target.slice),
-                        prog.fold(f.module, stmt.value, f.cls), stmt))
+        for f in all_funcs(m):
+            for kind, target, stmt in I.stores(f.node):
+                t = unparse(target)
+                if kind in ('assign', 'aug', 'del') and (
+                        t == RES or (t.startswith(RES + '[') and
+                                     t.count('[') == 1)):
+                    out.append((f, stmt))
     return out
 
 
@@ -115,23 +672,29 @@ def r20_2(prog, rep, rid='R20.2'):
     rep.rule(rid, 'DefaultWorker._alloc marks only indices it tested free, '
              'records exactly those in task[\'slots\'], and _dealloc frees the '
              'recorded indices of the same kind', minimum=10)
-    W = prog.cls(*WD)
     fa = prog.method(WD[0], WD[1], '_alloc')
     fd = prog.method(WD[0], WD[1], '_dealloc')
     rep.saw(fa)
     rep.saw(fd)
-    ga, gd = cfg_of(fa), cfg_of(fd)
-    sa, sd = I.stmt_node_map(ga), I.stmt_node_map(gd)
-    am, dm = _marks(prog, fa), _marks(prog, fd)
+    for f, stmt in _rebinds_resources(prog):
+        raise AnalysisError('UNRECOGNISED-IDIOM %s: `%s` replaces an occupancy '
+                            'list as a whole' % (f.where, short(stmt, 60)))
+    A = _alloc_flow(prog)
+    P, ga = A.P, A.g
+    PD = _Paths(prog, fd)
+    gd = PD.g
+    am = A.marks
+    dm = PD.cell_stores()
     if len(am) < 2 or len(dm) < 1:
         raise AnalysisError('R20.2: marking statements not found in %s / %s'
                             % (fa.where, fd.where))
     free_val = {}
-    for K, idx, v, stmt in dm:
-        free_val[K] = v
-    lists = {}
-    for K, idx, v, stmt in am:
-        node = sa[id(stmt)]
+    for m in dm:
+        free_val[m['K']] = m['val']
+    for m in am:
+        K, idx, v, node, stmt = m['K'], m['idx'], m['val'], m['node'], \
+            m['stmt']
+        it = unparse(idx)
         fv = free_val.get(K, 0)
         rep.check(v is not UNK and bool(v) and not fv, rid, fa,
                   '%s index is marked with a busy value (%r) distinct from '
@@ -141,151 +704,166 @@ def r20_2(prog, rep, rid='R20.2'):
                   % (K, v, fv), loc=fa.loc(stmt),
                   history='two requests of one %s each: the second is given '
                   'the index the first still uses' % K[:-1])
-        # (a) free test guards the mark
+        # (a) a free test of the same cell guards the mark
         verdict = None
         for tid, lab in guards(ga, node.id):
-            a = ast.parse(resolve_aliases(fa, ga.nodes[tid].ast),
-                          mode='eval').body
-            cell = '%s[%r][%s]' % (RES, K, idx)
-            if unparse(a) == cell:
-                ok = lab == 'F'
-            elif isinstance(a, ast.Compare) and len(a.ops) == 1 and \
-                    cell in (unparse(a.left), unparse(a.comparators[0])):
-                other = a.comparators[0] if unparse(a.left) == cell \
-                    else a.left
+            a = ga.nodes[tid].ast
+            free_on = None
+            hit = P.cell(a, tid)
+            if hit is not None:
+                cand, free_on = hit, 'F'
+            elif isinstance(a, ast.Compare) and len(a.ops) == 1:
+                l, r = a.left, a.comparators[0]
+                hl, hr = P.cell(l, tid), P.cell(r, tid)
+                if (hl is None) == (hr is None):
+                    continue
+                cand, other = (hl, r) if hl is not None else (hr, l)
                 ov = prog.fold(fa.module, other, fa.cls)
-                if ov is UNK:
-                    raise AnalysisError('UNRECOGNISED-IDIOM %s: free test %s'
-                                        % (fa.where, short(a)))
                 eq = isinstance(a.ops[0], (ast.Eq, ast.Is))
                 ne = isinstance(a.ops[0], (ast.NotEq, ast.IsNot))
-                if ov == fv:
-                    ok = (eq and lab == 'T') or (ne and lab == 'F')
-                elif ov == v:
-                    ok = (ne and lab == 'T') or (eq and lab == 'F')
-                else:
-                    ok = False
+                if ov is UNK or not (eq or ne) or (ov != fv and ov != v):
+                    if cand[0] == K and unparse(cand[1]) == it:
+                        raise AnalysisError('UNRECOGNISED-IDIOM %s: free test '
+                                            '%s' % (fa.where, short(a)))
+                    continue
+                free_on = ('T' if eq else 'F') if ov == fv else \
+                    ('F' if eq else 'T')
             else:
                 continue
-            verdict = 'ok' if ok else (verdict or 'wrong')
+            if cand[0] != K or unparse(cand[1]) != it or \
+                    not P.same_binding(_names(idx), tid, node.id):
+                continue
+            verdict = 'ok' if lab == free_on else (verdict or 'wrong')
+        if verdict is None:
+            # an index that is not a plain loop index was chosen somehow:
+            # by a test this analysis does not see
+            for nm in _names(idx):
+                ds = P.rdefs(nm, node.id)
+                plain = len(ds) == 1 and ds[0][0].kind == 'for' and \
+                    isinstance(ds[0][0].ast.iter, ast.Call) and \
+                    call_name(ds[0][0].ast.iter) in ('range', 'enumerate')
+                if not plain:
+                    raise AnalysisError(
+                        'UNRECOGNISED-IDIOM %s: the index `%s` of the cell '
+                        'marked by `%s` is not the index of a loop over '
+                        'range() / enumerate(): cannot decide whether the '
+                        'cell was tested free' % (fa.where, nm,
+                                                  short(stmt, 50)))
         rep.check(verdict == 'ok', rid, fa, 'the mark of %s[%s] is guarded '
-                  'by a free test of the same cell' % (K, idx),
+                  'by a free test of the same cell' % (K, it),
                   construct='guard:%s' % K,
                   message='_alloc marks %s[%r][%s] busy %s: a %s that another '
                   'request holds is handed out again'
-                  % (RES, K, idx, 'under a test of that cell with the wrong '
+                  % (RES, K, it, 'under a test of that cell with the wrong '
                      'polarity' if verdict == 'wrong' else 'without testing '
                      'that the cell is free', K[:-1]),
                   loc=fa.loc(stmt),
                   history='worker with 2 cores, request A holds core 0; '
                   'request B (1 core) is given core 0 as well')
-        # (b) the index is recorded
-        rec = None
-        for c in calls_in(fa.node):
-            if isinstance(c.func, ast.Attribute) and c.func.attr == 'append' \
-                    and isinstance(c.func.value, ast.Name) and c.args and \
-                    unparse(c.args[0]) == idx:
-                cn = sa[id(c)]
-                if cn.id in ga.reachable(node.id) and \
-                        must_pass(ga, ga.entry.id, cn.id, [node.id]) and \
-                        cn.loops == node.loops:
-                    if must_pass(ga, node.id, ga.exit.id, [cn.id]) or \
-                            not _skips(ga, node.id, cn.id):
-                        rec = c.func.value.id
-        rep.check(rec is not None, rid, fa, 'the marked %s index is appended '
+    # (b), (c): over all paths
+    terms = A.run()
+    rep.stat('paths_enumerated', A.ex.states)
+    kinds = sorted({m['K'] for m in am})
+    unrec, badslot, slot_seen = {}, {}, set()
+    for t in terms:
+        binds, marks, slots, ret = t.state
+        if t.node != ga.exit.id:
+            continue
+        for K, it, nm, rec in marks:
+            if rec is None or rec == 'lost':
+                unrec.setdefault(K, (it, t))
+        if ret != 'T':
+            continue            # failure exits: R20.8
+        sl = dict(slots or ())
+        slot_seen |= set(sl)
+        for K, it, nm, rec in marks:
+            if rec is None or rec == 'lost':
+                continue
+            if rec[0] != 'obj' or (K in sl and sl[K][0] == '?'):
+                raise AnalysisError(
+                    "UNRECOGNISED-IDIOM %s: cannot tell which list receives "
+                    "the marked %s indices / is stored in task['slots'] (%s)"
+                    % (fa.where, K, rec[1] if rec[0] != 'obj' else sl[K][1]))
+            if sl.get(K) != rec:
+                badslot.setdefault(K, (sl.get(K), t))
+    if not any(t.node == ga.exit.id and t.state[3] == 'T' and t.state[1]
+               for t in terms):
+        raise AnalysisError("UNRECOGNISED-IDIOM %s: no path marks a cell and "
+                            "returns a true value" % fa.where)
+    slot_stmt = [s for k, tg, s in I.stores(fa.node) if k == 'assign' and
+                 unparse(tg).endswith("['slots']")]
+    if not slot_stmt:
+        raise AnalysisError("UNRECOGNISED-IDIOM %s: task['slots'] is not "
+                            "assigned" % fa.where)
+    for K in kinds:
+        st = [m['stmt'] for m in am if m['K'] == K][0]
+        it = [unparse(m['idx']) for m in am if m['K'] == K][0]
+        rep.check(K not in unrec, rid, fa, 'the marked %s index is appended '
                   'to a result list on every path' % K, construct='record:%s'
                   % K, message='_alloc marks %s[%r][%s] busy but does not '
                   'record the index in a list on every path: the index is '
-                  'never given back' % (RES, K, idx), loc=fa.loc(stmt),
+                  'never given back' % (RES, K, it), loc=fa.loc(st),
+                  path=A.ex.literals(unrec[K][1])[-8:] if K in unrec else None,
                   history='every request leaks the %s it was given; after '
                   'n requests the worker blocks forever' % K)
-        if rec:
-            lists[K] = rec
-    # (c) task['slots'] carries the lists under their own kind
-    slot_stmt = None
-    for kind, target, stmt in I.stores(fa.node):
-        if kind == 'assign' and unparse(target).endswith("['slots']"):
-            slot_stmt = stmt
-    if slot_stmt is None:
-        raise AnalysisError("UNRECOGNISED-IDIOM %s: task['slots'] is not "
-                            "assigned" % fa.where)
-    val = slot_stmt.value
-    el = val.elts[0] if isinstance(val, (ast.List, ast.Tuple)) and \
-        len(val.elts) == 1 else None
-    slotmap = {}
-    if isinstance(el, ast.Dict):
-        for k, v in zip(el.keys, el.values):
-            if isinstance(k, ast.Constant):
-                slotmap[k.value] = unparse(v)
-    elif isinstance(el, ast.Call):
-        for kw in el.keywords:
-            slotmap[kw.arg] = unparse(kw.value)
-    else:
-        raise AnalysisError("UNRECOGNISED-IDIOM %s: task['slots'] is not a "
-                            "one-element list of a dict / Slot(...)"
-                            % fa.where)
-    snode = sa[id(slot_stmt)]
-    for K, L in sorted(lists.items()):
-        mk = [sa[id(s)].id for k2, _, _, s in am if k2 == K]
-        onpath = all(must_pass(ga, m, ga.exit.id, [snode.id]) for m in mk)
-        rep.check(slotmap.get(K) == L and onpath, rid, fa,
+    for K in kinds:
+        if K in unrec:
+            continue
+        got = badslot.get(K)
+        rep.check(got is None, rid, fa,
                   "task['slots'][0][%r] is the list of marked %s" % (K, K),
                   construct="slots:%s" % K,
-                  message="_alloc stores %s under task['slots'][0][%r] "
-                  "instead of the list %s that received the marked %s "
-                  "indices (or not on every path): _dealloc frees other "
-                  "indices than those marked" % (slotmap.get(K), K, L, K),
-                  loc=fa.loc(slot_stmt),
+                  message="_alloc returns a true value on a path where "
+                  "task['slots'][0][%r] is %s instead of the list that "
+                  "received the marked %s indices: _dealloc frees other "
+                  "indices than those marked" % (
+                      K, 'not set' if not got or got[0] is None else
+                      'another list' if got[0][0] == 'obj' else
+                      repr(got[0][1]), K),
+                  loc=fa.loc(slot_stmt[0]),
+                  path=A.ex.literals(got[1])[-8:] if got else None,
                   history='request with 1 core and 1 gpu on a 4-core/1-gpu '
                   'worker: on completion the wrong cells are freed; the '
                   'marked ones stay busy forever')
     # dealloc side
+    task_d = ([p for p in fd.params if p != 'self'] or [None])[0]
     seen_kinds = set()
-    for K, idx, v, stmt in dm:
-        node = sd[id(stmt)]
+    for m in dm:
+        K, idx, v, node, stmt = m['K'], m['idx'], m['val'], m['node'], \
+            m['stmt']
         ok = False
         why = 'it is not inside a loop over the recorded indices'
-        for h in node.loops:
-            hn = gd.nodes[h]
-            if hn.kind != 'for' or unparse(hn.ast.target) != idx:
-                continue
-            it = hn.ast.iter
+        ds = PD.rdefs(idx.id, node.id) if isinstance(idx, ast.Name) else []
+        if len(ds) == 1 and ds[0][0].kind == 'for' and \
+                isinstance(ds[0][0].ast.target, ast.Name) and \
+                ds[0][0].id in node.loops:
+            h = ds[0][0]
+            it = PD.canon(h.ast.iter, h.id)
             if not (isinstance(it, ast.Subscript) and
-                    isinstance(it.slice, ast.Constant)):
-                why = 'the loop does not iterate <slots>[kind]'
-                continue
-            base = it.value
-            if isinstance(base, ast.Name):
-                defs = [s.value for s in walk(fd.node)
-                        if isinstance(s, ast.Assign) and any(
-                            isinstance(t, ast.Name) and t.id == base.id
-                            for t in s.targets)]
-                base = defs[0] if len(defs) == 1 else base
-            if not unparse(base).endswith("['slots'][0]"):
+                    isinstance(it.slice, ast.Constant) and
+                    unparse(it.value) == "%s['slots'][0]" % task_d):
                 why = "the loop does not iterate task['slots'][0][kind]"
-                continue
-            if it.slice.value != K:
+            elif it.slice.value != K:
                 why = "the loop iterates the recorded %r indices" \
                       % it.slice.value
-                continue
-            if not must_pass(gd, gd.entry.id, gd.exit.id, [h]):
+            elif not must_pass(gd, gd.entry.id, gd.exit.id, [h.id]):
                 why = 'the loop is skipped on some path'
-                continue
-            ok = True
+            else:
+                ok = True
         seen_kinds.add(K)
         rep.check(ok and not v and v is not UNK, rid, fd,
                   "_dealloc frees %s[%r][i] for i in task['slots'][0][%r]"
                   % (RES, K, K), construct=stmt,
                   message='_dealloc writes %r to %s[%r][%s] but %s: the %s '
                   'marked by _alloc are not the ones released'
-                  % (v, RES, K, idx, why if not ok else
+                  % (v, RES, K, unparse(idx), why if not ok else
                      'the value is not the free value', K),
                   loc=fd.loc(stmt),
                   history='request with 2 cores and 1 gpu completes: its '
                   'cores stay busy (or foreign cells are freed and handed to '
                   'a second request while still in use)')
-    for K in sorted(set(lists) | set(k for k, _, _, _ in am)):
-        rep.check(K in seen_kinds and K in slotmap, rid, fd,
+    for K in kinds:
+        rep.check(K in seen_kinds and K in slot_seen, rid, fd,
                   'kind %r: marked in _alloc, recorded in slots, freed in '
                   '_dealloc' % K, construct='symmetry:%s' % K,
                   message='%r is marked busy by _alloc but %s' % (
@@ -296,11 +874,71 @@ def r20_2(prog, rep, rid='R20.2'):
                   'eventually refuses every request' % K)
 
 
-def _skips(g, src, via):
-    """True if some non-exc path from src leaves its innermost loop iteration
-    or the function without passing via"""
-    r = g.reachable(src, skip_nodes={via}, labels=NONEXC, no_back=True)
-    return g.exit.id in r
+# ------------------------------------------------------------------------------
+# R20.8  all-or-nothing allocation
+#
+def r20_8(prog, rep, rid='R20.8'):
+    rep.rule(rid, 'DefaultWorker._alloc is all-or-nothing: on no path that '
+             'ends with a false result (or an explicit failure) is a cell '
+             'still marked busy - every "does not fit" test comes before the '
+             'first mark, or the failing path frees what it marked',
+             minimum=2)
+    fa = prog.method(WD[0], WD[1], '_alloc')
+    rep.saw(fa)
+    A = _alloc_flow(prog)
+    g = A.g
+    if len(A.marks) < 1:
+        raise AnalysisError('R20.8: marking statements not found in %s'
+                            % fa.where)
+    # the caller polls: a false result means "nothing taken, ask again"
+    W = prog.cls(*WD)
+    polls = any(call_name(c) == 'self._alloc' for m in W.methods.values()
+                for c in calls_in(m.node))
+    if not polls:
+        raise AnalysisError('UNRECOGNISED-IDIOM %s: _alloc is not called by '
+                            'the worker' % W.where)
+    terms = A.run()
+    bad = {}
+    for t in terms:
+        binds, marks, slots, ret = t.state
+        if not marks:
+            continue
+        if t.node == g.exit.id:
+            if ret == 'T':
+                continue
+            if ret == '?':
+                raise AnalysisError('UNRECOGNISED-IDIOM %s: the truth of the '
+                                    'value returned after cells were marked '
+                                    'cannot be evaluated' % fa.where)
+            for K, it, nm, rec in marks:
+                bad.setdefault(K, ('returns a false value', t))
+        else:
+            # an explicit failure (assert / raise): the handler of the caller
+            # can only free what task['slots'] names
+            sl = dict(slots or ())
+            for K, it, nm, rec in marks:
+                if rec is None or sl.get(K) != rec:
+                    bad.setdefault(K, ('fails (assert / raise)', t))
+    for K in sorted({m['K'] for m in A.marks}):
+        st = [m['stmt'] for m in A.marks if m['K'] == K][0]
+        how, t = bad.get(K, (None, None))
+        lits = A.ex.literals(t)[-8:] if t is not None else None
+        rep.check(K not in bad, rid, fa, 'no path marks %s busy and then '
+                  'refuses the request' % K, construct='atomic:%s' % K,
+                  message='_alloc %s on a path where %s[%r] cells were already '
+                  'marked busy and not freed again (task[\'slots\'] does not '
+                  'name them, _request_cb just asks again): these %s belong '
+                  'to no request and are never given back - a "does not fit" '
+                  'test sits behind a mark%s'
+                  % (how, RES, K, K, (' [path: %s]' % ' ; '.join(lits))
+                     if lits else ''),
+                  loc=fa.loc(st), path=lits,
+                  history='worker with 4 cores and 2 gpus; request A holds '
+                  'all of the kind that is tested later, request B needs both '
+                  'kinds and is polled every 10 ms: each poll marks B\'s share '
+                  'of the %s busy and returns False; after two polls none is '
+                  'free, B and every request behind it wait forever, and the '
+                  '%s stay busy after A is done' % (K, K))
 
 
 # ------------------------------------------------------------------------------
@@ -1411,10 +2049,61 @@ def _schema_keys(prog):
     return out
 
 
+class _Ref:
+    """value of a local name bound to a list / dict that lives inside another
+    container variable (`bucket = routes[key]`): reads and mutations go to
+    that element"""
+    __slots__ = ('root', 'path')
+
+    def __init__(self, root, path):
+        self.root, self.path = root, tuple(path)
+
+    def __eq__(self, other):
+        return isinstance(other, _Ref) and \
+            (other.root, other.path) == (self.root, self.path)
+
+    def __hash__(self):
+        return hash(('_Ref', self.root, self.path))
+
+    def __repr__(self):
+        return '&%s%s' % (self.root, ''.join('[%r]' % (k,) for k in self.path))
+
+
+def _get_path(v, path):
+    for k in path:
+        try:
+            v = v[k]
+        except Exception:                                   # noqa
+            return UNK
+    return v
+
+
+def _set_path(v, path, new):
+    """copy of container v with the element at path replaced"""
+    if not path:
+        return new
+    k = path[0]
+    try:
+        if isinstance(v, dict):
+            c = dict(v)
+            c[k] = _set_path(v.get(k, UNK), path[1:], new)
+            return c
+        if isinstance(v, list) and isinstance(k, int):
+            c = list(v)
+            c[k] = _set_path(v[k], path[1:], new)
+            return c
+    except Exception:                                       # noqa
+        pass
+    return UNK
+
+
 class _DInterp(Interp):
     """value interpreter that also reads a description held as a dict through
-    attribute access (`td.mode`, TypedDict style) and evaluates
-    str.startswith / endswith on known strings"""
+    attribute access (`td.mode`, TypedDict style), evaluates str.startswith /
+    endswith on known strings, and follows mutations of a list that is
+    reached through an expression - an element of a table chosen by a
+    computed key (`routes[mode == X].append(t)`), a conditional expression
+    between two lists, a local bound to such an element"""
 
     schema = ()
 
@@ -1425,7 +2114,101 @@ class _DInterp(Interp):
                 base = self.ev(f, e.value, env)
                 if isinstance(base, dict) and 'mode' in base:
                     return base.get(e.attr)
-        return Interp.ev(self, f, e, env)
+        v = Interp.ev(self, f, e, env)
+        if isinstance(v, _Ref):
+            return _get_path(env.get(v.root, UNK), v.path)
+        return v
+
+    def _cpath(self, f, e, env):
+        """(variable, path below it) of the container object e denotes by
+        reference; path None: some element that cannot be told; None: e is
+        not such an expression"""
+        if isinstance(e, ast.Name):
+            v = env.get(e.id)
+            if isinstance(v, _Ref):
+                return v.root, v.path
+            k = deref(env, e.id)
+            return (k, ()) if isinstance(env.get(k), (list, dict)) else None
+        if isinstance(e, ast.Subscript) and \
+                not isinstance(e.slice, ast.Slice):
+            b = self._cpath(f, e.value, env)
+            if b is None or b[1] is None:
+                return b
+            kv = self.ev(f, e.slice, env)
+            if kv is UNK or not isinstance(kv, (str, int, bool, type(None))):
+                return b[0], None
+            return b[0], b[1] + (kv,)
+        if isinstance(e, ast.IfExp):
+            t = truth(self.ev(f, e.test, env))
+            if t is None:
+                a, b = self._cpath(f, e.body, env), \
+                    self._cpath(f, e.orelse, env)
+                if a is not None and b is not None and a[0] == b[0]:
+                    return a[0], None
+                return None
+            return self._cpath(f, e.body if t else e.orelse, env)
+        return None
+
+    def effects(self, f, node, edge, env, depth):
+        a = node.ast
+        if node.kind == 'stmt' and a is not None:
+            env2 = self._container_effect(f, node, a, env)
+            if env2 is not None:
+                return [env2]
+        return Interp.effects(self, f, node, edge, env, depth)
+
+    def _container_effect(self, f, node, a, env):
+        """environment after statement a if it appends to / binds a name to a
+        container reached through an expression; None: not that shape (the
+        generic treatment applies)"""
+        if isinstance(a, ast.Expr) and isinstance(a.value, ast.Call) and \
+                isinstance(a.value.func, ast.Attribute) and \
+                a.value.func.attr == 'append' and len(a.value.args) == 1 \
+                and not a.value.keywords:
+            recv = a.value.func.value
+            cp = self._cpath(f, recv, env)
+            if cp is None and isinstance(recv, ast.IfExp):
+                # one of two containers, the test cannot be evaluated
+                env = dict(env)
+                for br in (recv.body, recv.orelse):
+                    bp = self._cpath(f, br, env)
+                    if bp is not None:
+                        self._kill(env, bp[0], keep_self=False)
+                        env[bp[0]] = UNK
+                return env
+            if cp is None or (cp[1] == () and isinstance(recv, ast.Name)
+                              and not isinstance(env.get(recv.id), _Ref)):
+                return None
+            root, path = cp
+            env = dict(env)
+            cur = UNK if path is None else _get_path(env[root], path)
+            if not isinstance(cur, list):
+                # an element that cannot be told receives the item: nothing
+                # below the variable is known any more
+                self._kill(env, root, keep_self=False)
+                env[root] = UNK
+                return env
+            if all('@L%d' % h in env for h in node.loops):
+                new = cur + [self.ev(f, a.value.args[0], env)]
+            else:
+                new = UNK
+            env[root] = _set_path(env[root], path, new)
+            return env
+        if isinstance(a, ast.Assign) and len(a.targets) == 1 and \
+                isinstance(a.targets[0], ast.Name) and \
+                isinstance(a.value, (ast.Subscript, ast.IfExp)):
+            cp = self._cpath(f, a.value, env)
+            if cp is None or not cp[1]:
+                return None
+            root, path = cp
+            if root == a.targets[0].id or \
+                    not isinstance(_get_path(env[root], path), (list, dict)):
+                return None
+            env = dict(env)
+            self._kill(env, a.targets[0].id, keep_self=False)
+            env[a.targets[0].id] = _Ref(root, path)
+            return env
+        return None
 
     def _call(self, f, c, env):
         fn = c.func
@@ -1925,12 +2708,344 @@ def r20_7(prog, rep, rid='R20.7'):
 
 
 # ------------------------------------------------------------------------------
+# R20.9  a request is registered before it is dispatched
+#
+# A method that enters a request into a table (`self.T[key] = entry`) which a
+# callback running on another thread looks up, and that also hands the request
+# on (queue put, advance with push, process start - directly or through the
+# methods it calls), must have registered before the hand-on takes effect: the
+# answer may be handled by the callback thread at once, and a callback that
+# finds no entry drops the answer (nobody is woken up) or fails.  The order
+# does not matter when both sites sit in one critical section of a lock that
+# every lookup of the table holds as well.
+#
+REG_CLASSES = (MA, WD)
+
+
+def _pkg_methods(prog, C):
+    """{name: FuncInfo}: methods the class sees that live in raptor/"""
+    return {n: f for n, f in I.class_methods(prog, C).items()
+            if f.module.rel.startswith('raptor/')}
+
+
+def _callback_methods(prog, C, methods):
+    """names of methods that are handed to somebody as a callable (cb=,
+    target=, register_*(.., self.m)) and of everything those call: they run
+    on a thread of their own, concurrently with the caller that registered
+    them"""
+    seeds = set()
+    for f in methods.values():
+        for c in calls_in(f.node, nested=True):
+            for a in list(c.args) + [k.value for k in c.keywords]:
+                if isinstance(a, ast.Attribute) and \
+                        isinstance(a.value, ast.Name) and \
+                        a.value.id == 'self' and a.attr in methods:
+                    seeds.add(a.attr)
+    todo = list(seeds)
+    while todo:
+        n = todo.pop()
+        for c in calls_in(methods[n].node, nested=True):
+            g = prog.resolve_call(methods[n], c, C)
+            if g is not None and methods.get(g.name) is g and \
+                    g.name not in seeds:
+                seeds.add(g.name)
+                todo.append(g.name)
+    return seeds
+
+
+def _self_table(e):
+    """'T' for the expression self.T"""
+    if isinstance(e, ast.Attribute) and isinstance(e.value, ast.Name) and \
+            e.value.id == 'self':
+        return e.attr
+    return None
+
+
+def _table_lookups(f):
+    """[(table, ast node)] for `k in self.T`, `self.T[k]` (read / del),
+    self.T.get / pop (k)"""
+    out = []
+    for n in walk(f.node):
+        if isinstance(n, ast.Compare):
+            for op, r in zip(n.ops, n.comparators):
+                if isinstance(op, (ast.In, ast.NotIn)) and _self_table(r):
+                    out.append((_self_table(r), n))
+        elif isinstance(n, ast.Subscript) and _self_table(n.value) and \
+                isinstance(n.ctx, (ast.Load, ast.Del)):
+            out.append((_self_table(n.value), n))
+        elif isinstance(n, ast.Call) and isinstance(n.func, ast.Attribute) \
+                and n.func.attr in ('get', 'pop') and \
+                _self_table(n.func.value) and n.args:
+            out.append((_self_table(n.func.value), n))
+    return out
+
+
+def _registrations(f):
+    """[(table, stmt / call, [key and entry expressions])] for
+    `self.T[key] = entry` and self.T.setdefault(key, entry) with a key that
+    is not a constant"""
+    out = []
+    for kind, target, stmt in I.stores(f.node):
+        if kind == 'assign' and isinstance(target, ast.Subscript) and \
+                _self_table(target.value) and \
+                not isinstance(target.slice, ast.Constant) and \
+                isinstance(stmt, ast.Assign):
+            out.append((_self_table(target.value), stmt,
+                        [target.slice, stmt.value]))
+        elif kind == 'mutate' and isinstance(stmt, ast.Call) and \
+                stmt.func.attr == 'setdefault' and _self_table(target) and \
+                stmt.args and not isinstance(stmt.args[0], ast.Constant):
+            out.append((_self_table(target), stmt, list(stmt.args)))
+    return out
+
+
+def _starts_process(f, c):
+    """c is `<x>.start()` on a local bound to a Process / Thread object"""
+    if not (isinstance(c.func, ast.Attribute) and c.func.attr == 'start' and
+            isinstance(c.func.value, ast.Name) and not c.args):
+        return False
+    for s in walk(f.node):
+        if isinstance(s, ast.Assign) and isinstance(s.value, ast.Call) and \
+                any(isinstance(t, ast.Name) and t.id == c.func.value.id
+                    for t in s.targets) and \
+                call_name(s.value).split('.')[-1] in ('Process', 'Thread'):
+            return True
+    return False
+
+
+def _direct_dispatch(f, c):
+    """text of what kind of hand-on call c is, or None"""
+    if I.is_handon(c) and I.flag(c, 'push', False) is True:
+        return 'advance(push=True)'
+    if isinstance(c.func, ast.Attribute) and c.func.attr == 'put' and \
+            _self_table(c.func.value) and c.args:
+        return 'self.%s.put()' % _self_table(c.func.value)
+    if _starts_process(f, c):
+        return 'process start'
+    return None
+
+
+class _RegDispatch:
+    """per class: what each method registers / hands on, itself or through
+    the self methods it calls"""
+
+    DEPTH = 5
+
+    def __init__(self, prog, C):
+        self.prog, self.C = prog, C
+        self.methods = _pkg_methods(prog, C)
+        self.memo = {}
+
+    def summary(self, f, depth=0):
+        k = id(f.node)
+        if k in self.memo:
+            return self.memo[k]
+        s = {'tables': set(), 'dispatch': None}
+        self.memo[k] = s                    # recursion guard
+        for t, stmt, parts in _registrations(f):
+            s['tables'].add(t)
+        for c in calls_in(f.node):
+            d = _direct_dispatch(f, c)
+            if d is None and depth < self.DEPTH:
+                g = self.callee(f, c)
+                if g is not None:
+                    cs = self.summary(g, depth + 1)
+                    s['tables'] |= cs['tables']
+                    if cs['dispatch']:
+                        d = '%s() -> %s' % (g.name, cs['dispatch'])
+            if d and not s['dispatch']:
+                s['dispatch'] = d
+        return s
+
+    def callee(self, f, c):
+        if not (isinstance(c.func, ast.Attribute) and
+                isinstance(c.func.value, ast.Name) and
+                c.func.value.id == 'self'):
+            return None
+        g = self.prog.resolve_call(f, c, self.C)
+        if g is None or g.node is f.node or self.methods.get(g.name) is not g:
+            return None
+        return g
+
+
+def _lock_of(with_ast):
+    for it in with_ast.items:
+        t = unparse(it.context_expr)
+        if t.startswith('self.'):
+            return t
+    return None
+
+
+class _InfoOnly:
+    """report adapter for classes that are not anchored: a finding becomes an
+    information line, nothing is counted"""
+
+    def __init__(self, rep):
+        self.rep = rep
+
+    def saw(self, f):
+        pass
+
+    def ok(self, *a, **k):
+        pass
+
+    def bad(self, rid, where, construct, message, loc=None, history=None,
+            path=None):
+        self.rep.info(rid, where, '(not an anchored class) ' + message, loc)
+
+
+def r20_9(prog, rep, rid='R20.9', tier='quick'):
+    rep.rule(rid, 'a method that enters a request into a table which a '
+             'callback thread looks up and also hands the request on '
+             '(queue put / advance(push) / process start, directly or '
+             'through the methods it calls) registers before it hands on - '
+             'or both happen inside one critical section that every lookup '
+             'of the table holds too', minimum=2)
+    todo = [(prog.cls(rel, cname), rep) for rel, cname in REG_CLASSES]
+    if tier == 'thorough':
+        armed = {id(C) for C, _ in todo}
+        todo += [(C, _InfoOnly(rep)) for C in prog.all_classes()
+                 if C.module.rel.startswith('raptor/') and id(C) not in armed]
+    for C, out in todo:
+        an = _RegDispatch(prog, C)
+        methods = an.methods
+        cbs = _callback_methods(prog, C, methods)
+        lookups = {}            # table -> [(method, ast node)]
+        for n, f in methods.items():
+            for t, node in _table_lookups(f):
+                lookups.setdefault(t, []).append((f, node))
+        for mname, m in sorted(methods.items()):
+            if mname == '__init__':
+                continue
+            g = cfg_of(m)
+            smap = I.stmt_node_map(g)
+            deps = None
+            # registration and hand-on nodes of this method
+            R, D = {}, []
+            for t, stmt, parts in _registrations(m):
+                n = smap.get(id(stmt))
+                if n is not None:
+                    R.setdefault(t, []).append((n, stmt, parts))
+            for c in calls_in(m.node):
+                n = smap.get(id(c))
+                if n is None:
+                    continue
+                d = _direct_dispatch(m, c)
+                gsum = None
+                if d is None:
+                    callee = an.callee(m, c)
+                    if callee is not None:
+                        gsum = an.summary(callee)
+                        if gsum['dispatch']:
+                            d = '%s() -> %s' % (callee.name, gsum['dispatch'])
+                        for t in gsum['tables']:
+                            R.setdefault(t, []).append(
+                                (n, c, list(c.args) +
+                                 [k.value for k in c.keywords]))
+                if d:
+                    what = list(c.args) + [k.value for k in c.keywords]
+                    if isinstance(c.func, ast.Attribute) and \
+                            c.func.attr == 'start':
+                        what.append(c.func.value)
+                    D.append((n, c, d, what))
+            if not R or not D:
+                continue
+            out.saw(m)
+            for t, regs in sorted(R.items()):
+                # who looks the table up, on a callback thread
+                seen_by = [(f, node) for f, node in lookups.get(t, [])
+                           if f.name in cbs and f is not m]
+                if not seen_by:
+                    continue
+                for dn, dc, dtxt, dwhat in D:
+                    if deps is None:
+                        deps = Deps(m.node)
+                    dd = set()
+                    for x in dwhat:
+                        dd |= deps.expr_depends(x)
+                    rel_regs = []
+                    for rn, rs, parts in regs:
+                        rd = set()
+                        for x in parts:
+                            rd |= deps.expr_depends(x)
+                        common = {x for x in dd & rd if x != 'self' and
+                                  not x.startswith('self.') and
+                                  not x.startswith('ret:')}
+                        if common:
+                            rel_regs.append((rn, rs))
+                    if not rel_regs:
+                        continue
+                    cbnames = sorted({f.qual for f, _ in seen_by})
+                    what = '%s: entry in self.%s before `%s`' % (
+                        m.qual, t, short(dc, 40))
+                    # one critical section which every lookup holds too
+                    locks = None
+                    for rn, rs in rel_regs:
+                        ls = {_lock_of(w) for w in rn.withs
+                              if w in dn.withs} - {None}
+                        locks = ls if locks is None else locks & ls
+                    if locks:
+                        held = True
+                        for f, node in seen_by:
+                            gn = I.stmt_node_map(cfg_of(f)).get(id(node))
+                            if gn is None or not any(
+                                    _lock_of(w) in locks for w in gn.withs):
+                                held = False
+                        if held:
+                            out.ok(rid, m, what + ' (one critical section of '
+                                   '%s, held by every lookup)'
+                                   % '/'.join(sorted(locks)), m.loc(dc))
+                            continue
+                    rids = [rn.id for rn, rs in rel_regs]
+                    if dn.id in rids or \
+                            must_pass(g, g.entry.id, dn.id, rids):
+                        out.ok(rid, m, what, m.loc(dc))
+                        continue
+                    # registrations that follow once the hand-on took effect
+                    # (same pass through the enclosing loops: a later
+                    # iteration handles another request)
+                    after = set()
+                    for e in g.succ[dn.id]:
+                        if e.label != 'exc' and not e.back:
+                            after |= g.reachable(e.dst, no_back=True)
+                    late = [rs for rn, rs in rel_regs if rn.id in after]
+                    if not late:
+                        out.ok(rid, m, what + ' (no registration follows '
+                               'the hand-on)', m.loc(dc))
+                        continue
+                    rs0 = late[0]
+                    out.bad(rid, m, 'register:%s' % t,
+                            '%s hands the request on (`%s`: %s) %s `%s`; '
+                            'self.%s is looked up by %s on the callback '
+                            'thread, which may handle the answer before the '
+                            'entry exists: it finds nothing, the waiting '
+                            'party is never notified (or the callback '
+                            'fails) - the request does not come back'
+                            % (m.qual, short(dc, 50), dtxt,
+                               'before it registers it with', short(rs0, 60),
+                               t, ', '.join(cbnames)),
+                            m.loc(dc),
+                            history='a request that completes at once (a '
+                            'trivial call on an idle worker, or the thread '
+                            'that hands it on is descheduled right after the '
+                            'hand-on): %s runs before `%s` and finds no '
+                            'entry for the request; whoever waits for the '
+                            'entry to be completed (event.wait() of a '
+                            'run_task() call) blocks forever'
+                            % (cbnames[0], short(rs0, 40)))
+
+
+# ------------------------------------------------------------------------------
 #
 def run(prog, rep, tier):
     rep.decided = ('DefaultWorker touches its occupancy lists only under '
         '_rlock; _alloc marks only cells it tested free, records exactly '
         'those in task[\'slots\'] and _dealloc frees the recorded cells of '
-        'the same kind; worker function, timeout branch and dispatch error '
+        'the same kind; _alloc is all-or-nothing (no path ends with a false '
+        'result or an explicit failure while a cell it marked is still busy); '
+        'a method that enters a request into a table a callback thread looks '
+        'up and also hands it on registers first (or both inside one critical '
+        'section every lookup holds); worker function, timeout branch and dispatch error '
         'handler each put one well-formed result (non-zero code and '
         'exception on failure) on the queue whose single consumer calls '
         '_result_cb, which frees, copies the result fields and reports; a '
@@ -1947,7 +3062,9 @@ def run(prog, rep, tier):
     rep.undecided = ('process-level races between the worker process and the '
         'timeout path (both may put a result); requests larger than the '
         'worker (asserts in _alloc); zmq delivery between master and '
-        'workers; MPI worker (worker_mpi.py) is not anchored.')
+        'workers; MPI worker (worker_mpi.py) is not anchored; a registration '
+        'that is skipped on some path to the hand-on (only the order of the '
+        'two is decided); pubsub publishes are not taken as a hand-on.')
     rep.assumptions = [
         'no monkey patching; subclasses outside the package do not override '
         'the anchors',
@@ -1961,11 +3078,16 @@ def run(prog, rep, tier):
         'arbitrary',
     ]
     r20_1(prog, rep, tier=tier)
+    # (not through rep.attempt: when the writer cannot be read on the tree as
+    # it is - marks moved into a fresh helper - this view abstains as a whole
+    # and the normalised views, which inline the helper, decide)
     r20_2(prog, rep)
+    r20_8(prog, rep)
     r20_3(prog, rep)
     r20_4(prog, rep)
     r20_5(prog, rep)
     r20_6(prog, rep)
+    r20_9(prog, rep, tier=tier)
     rep.attempt(r20_7, prog, rep)
 
 
@@ -2231,6 +3353,197 @@ SILENT = [
              "            self._mark_seen(task)\n"),
         (_M, _HELPER_AT,
              "    def _mark_seen(self, task):\n\n        if task['description']['mode'] != TASK_EXECUTABLE:\n            return\n        task['raptor_seen'] = True\n\n\n" + _HELPER_AT)]),
+]
+
+# --- round 3 (all-or-nothing allocation, register before hand-on, routing through a table)
+_FIT = ("            if cores > self._resources['cores'].count(0): return False\n"
+        "            if gpus  > self._resources['gpus' ].count(0): return False\n")
+_LISTS = ("            alloc_cores = list()\n"
+          "            alloc_gpus  = list()\n")
+_CORE_LOOP = ("            if cores:\n"
+              "                for n in range(self._n_cores):\n"
+              "                    if not self._resources['cores'][n]:\n"
+              "                        self._resources['cores'][n] = 1\n"
+              "                        alloc_cores.append(n)\n"
+              "                        if len(alloc_cores) == cores:\n"
+              "                            break\n")
+_GPU_LOOP = ("            if gpus:\n"
+             "                for n in range(self._n_gpus):\n"
+             "                    if not self._resources['gpus'][n]:\n"
+             "                        self._resources['gpus'][n] = 1\n"
+             "                        alloc_gpus.append(n)\n"
+             "                        if len(alloc_gpus) == gpus:\n"
+             "                            break\n")
+_MARKING = _FIT + "\n" + _LISTS + "\n" + _CORE_LOOP + "\n" + _GPU_LOOP
+_ALLOC_AT = "    def _alloc(self, task):\n"
+_SLOTS = ("            task['slots'] = [{'cores': alloc_cores,\n"
+          "                              'gpus' : alloc_gpus}]")
+_CLAIM_CHECKED = (
+    "    def _claim(self, kind, count):\n\n"
+    "        pool = self._resources[kind]\n\n"
+    "        if count > pool.count(0):\n"
+    "            return None\n\n"
+    "        claimed = list()\n"
+    "        for n, busy in enumerate(pool):\n\n"
+    "            if len(claimed) == count:\n"
+    "                break\n\n"
+    "            if not busy:\n"
+    "                pool[n] = 1\n"
+    "                claimed.append(n)\n\n"
+    "        return claimed\n\n\n")
+_CLAIM_PLAIN = (
+    "    def _claim(self, kind, count):\n\n"
+    "        pool    = self._resources[kind]\n"
+    "        claimed = list()\n"
+    "        for n, busy in enumerate(pool):\n\n"
+    "            if len(claimed) == count:\n"
+    "                break\n\n"
+    "            if not busy:\n"
+    "                pool[n] = 1\n"
+    "                claimed.append(n)\n\n"
+    "        return claimed\n\n\n")
+_REG     = "        self._task_service_data[tid] = [event, task]\n"
+_SUBMIT  = "        self.submit_tasks([task])\n"
+_RUN_AT  = "    def _run_task(self, td):\n"
+_TRACK   = ("    def _track(self, tid, event, task):\n\n"
+            "        self._task_service_data[tid] = [event, task]\n\n\n")
+_SPAWN   = ("                with self._plock:\n\n"
+            "                    # we need to include `proc.start()` in the lock, as\n"
+            "                    # otherwise we may end up getting the `self._result_cb`\n"
+            "                    # before the pid could be registered in `self._pool`.\n"
+            "                    proc.start()\n"
+            "                    self._pool[proc.pid] = proc\n")
+_ROUTE_IF = ("            if mode == TASK_EXECUTABLE:\n"
+             "                executable_tasks.append(task)\n"
+             "            else:\n"
+             "                raptor_tasks.append(task)\n")
+_ROUTE_LISTS = ("        raptor_tasks     = list()\n"
+                "        executable_tasks = list()\n")
+_ROUTE_CALLS = ("        self._submit_executable_tasks(executable_tasks)\n"
+                "        self._submit_raptor_tasks(raptor_tasks)")
+
+MUTATIONS += [
+    dict(name='R20.8 seed C20-e: marking folded into _claim(kind, count), each fit test right before its kind is marked', rules=('R20.8',), edits=[
+        (_D, _MARKING,
+             "            alloc_cores = self._claim('cores', cores)\n"
+             "            if alloc_cores is None: return False\n\n"
+             "            alloc_gpus  = self._claim('gpus', gpus)\n"
+             "            if alloc_gpus  is None: return False\n"),
+        (_D, _ALLOC_AT, _CLAIM_CHECKED + _ALLOC_AT)],
+         note='cores fit, gpus do not: False is returned with the cores marked'),
+    dict(name='R20.8 seed C20-a: each fit test moved in front of its own marking loop', rules=('R20.8',), edits=[
+        (_D, _FIT + "\n", ""),
+        (_D, "            if cores:\n                for n in range(self._n_cores):\n",
+             "            if cores:\n                if cores > self._resources['cores'].count(0): return False\n                for n in range(self._n_cores):\n"),
+        (_D, "            if gpus:\n                for n in range(self._n_gpus):\n",
+             "            if gpus:\n                if gpus > self._resources['gpus'].count(0): return False\n                for n in range(self._n_gpus):\n")]),
+    dict(name='R20.8 gpu fit test only after the cores were marked', rules=('R20.8',), edits=[
+        (_D, "            if gpus  > self._resources['gpus' ].count(0): return False\n", ""),
+        (_D, "            if gpus:\n                for n in range(self._n_gpus):\n",
+             "            short = gpus > self._resources['gpus'].count(0)\n            if short:\n                return False\n\n            if gpus:\n                for n in range(self._n_gpus):\n")]),
+    dict(name='R20.8 sanity assert on the gpu count after the cells were marked', rules=('R20.8',), edits=[
+        (_D, _SLOTS, "            assert len(alloc_gpus) == gpus, 'gpu shortage'\n\n" + _SLOTS)],
+         note='an explicit failure after the marks: task[\'slots\'] is not set yet, the handler of _request_cb cannot free them'),
+    dict(name='R20.8 gpus marked first, core fit test behind them', rules=('R20.8',), edits=[
+        (_D, _MARKING,
+             "            if gpus  > self._resources['gpus' ].count(0): return False\n\n"
+             + _LISTS + "\n" + _GPU_LOOP + "\n"
+             "            if cores > self._resources['cores'].count(0): return False\n\n"
+             + _CORE_LOOP)]),
+    dict(name='R20.9 seed C20-f: _run_task registers the waiting request after submit_tasks', rules=('R20.9',), edits=[
+        (_M, _REG + _SUBMIT, _SUBMIT + _REG)]),
+    dict(name='R20.9 seed C20-f with the registration in a helper called after the submission', rules=('R20.9',), edits=[
+        (_M, _REG + _SUBMIT, _SUBMIT + "        self._track(tid, event, task)\n"),
+        (_M, _RUN_AT, _TRACK + _RUN_AT)]),
+    dict(name='R20.9 _run_task submits through _submit_tasks first, entry built afterwards', rules=('R20.9',), edits=[
+        (_M, _REG + _SUBMIT,
+             "        self._submit_tasks(self.request_cb([task]))\n"
+             "        entry = [event, task]\n"
+             "        self._task_service_data[tid] = entry\n")]),
+    dict(name='R20.9 worker registers the pid outside the lock that covers proc.start()', rules=('R20.9',), edits=[
+        (_D, "                    proc.start()\n                    self._pool[proc.pid] = proc\n",
+             "                    proc.start()\n\n                self._pool[proc.pid] = proc\n")],
+         note='_result_cb may run `del self._pool[pid]` first: KeyError kills the result watcher thread'),
+    dict(name='R20.5 routing table filled under the inverted key', rules=('R20.5',), edits=[
+        (_M, _ROUTE_LISTS, "        routes = {True: list(), False: list()}\n"),
+        (_M, _ROUTE_IF, "            routes[mode != TASK_EXECUTABLE].append(task)\n"),
+        (_M, _ROUTE_CALLS, "        self._submit_executable_tasks(routes[True])\n        self._submit_raptor_tasks(routes[False])")]),
+    dict(name='R20.5 routing table read under swapped keys', rules=('R20.5',), edits=[
+        (_M, _ROUTE_LISTS, "        routes = {'exe': [], 'raptor': []}\n"),
+        (_M, _ROUTE_IF, "            key = 'exe' if mode == TASK_EXECUTABLE else 'raptor'\n            routes[key].append(task)\n"),
+        (_M, _ROUTE_CALLS, "        self._submit_executable_tasks(routes['raptor'])\n        self._submit_raptor_tasks(routes['exe'])")]),
+]
+
+SILENT += [
+    dict(name='_alloc: both fit tests first, marking folded into _claim(kind, count)', edits=[
+        (_D, _LISTS + "\n" + _CORE_LOOP + "\n" + _GPU_LOOP,
+             "            alloc_cores = self._claim('cores', cores)\n"
+             "            alloc_gpus  = self._claim('gpus',  gpus)\n"),
+        (_D, _ALLOC_AT, _CLAIM_PLAIN + _ALLOC_AT)],
+         note='the clean-up of seed C20-e done right: all or nothing is kept'),
+    dict(name='_alloc: gpu fit test after the cores were marked, failing path frees them again', edits=[
+        (_D, "            if gpus  > self._resources['gpus' ].count(0): return False\n", ""),
+        (_D, "            if gpus:\n                for n in range(self._n_gpus):\n",
+             "            if gpus > self._resources['gpus'].count(0):\n                for n in alloc_cores:\n                    self._resources['cores'][n] = 0\n                return False\n\n            if gpus:\n                for n in range(self._n_gpus):\n")]),
+    dict(name='_alloc: fit tests hoisted into one local flag', edits=[
+        (_D, _FIT,
+             "            fits = cores <= self._resources['cores'].count(0) and \\\n"
+             "                   gpus  <= self._resources['gpus' ].count(0)\n"
+             "            if not fits:\n"
+             "                return False\n")]),
+    dict(name='_alloc: fit result kept in a flag that gates both marking loops, refusal after them', edits=[
+        (_D, _FIT,
+             "            short = cores > self._resources['cores'].count(0) or \\\n"
+             "                    gpus  > self._resources['gpus' ].count(0)\n"),
+        (_D, "            if cores:\n                for n in range(self._n_cores):\n",
+             "            if cores and not short:\n                for n in range(self._n_cores):\n"),
+        (_D, "            if gpus:\n                for n in range(self._n_gpus):\n",
+             "            if gpus and not short:\n                for n in range(self._n_gpus):\n"),
+        (_D, _SLOTS, "            if short:\n                return False\n\n" + _SLOTS)],
+         note='correlated tests: no path marks a cell and takes the refusal'),
+    dict(name='_alloc: result returned through a local', edits=[
+        (_D, "        self._prof.prof('schedule_ok', uid=uid)\n\n        return True\n",
+             "        granted = True\n        self._prof.prof('schedule_ok', uid=uid)\n\n        return granted\n")]),
+    dict(name='_alloc: index lists kept in one dict that becomes the slot', edits=[
+        (_D, _LISTS, "            alloc = {'cores': list(), 'gpus': list()}\n"),
+        (_D, "                        alloc_cores.append(n)\n                        if len(alloc_cores) == cores:\n",
+             "                        alloc['cores'].append(n)\n                        if len(alloc['cores']) == cores:\n"),
+        (_D, "                        alloc_gpus.append(n)\n                        if len(alloc_gpus) == gpus:\n",
+             "                        alloc['gpus'].append(n)\n                        if len(alloc['gpus']) == gpus:\n"),
+        (_D, _SLOTS, "            task['slots'] = [alloc]")]),
+    dict(name='_alloc: indices recorded with += [n], asserts after the fit tests', edits=[
+        (_D, "            assert cores >= 1\n            assert cores <= self._n_cores\n            assert gpus  <= self._n_gpus\n\n" + _FIT,
+             _FIT + "\n            assert cores >= 1\n            assert cores <= self._n_cores\n            assert gpus  <= self._n_gpus\n"),
+        (_D, "                        alloc_cores.append(n)\n", "                        alloc_cores += [n]\n")]),
+    dict(name='_run_task: entry built in a local, registered by a helper before the submission', edits=[
+        (_M, _REG + _SUBMIT, "        self._track(tid, event, task)\n        requests = [task]\n        self.submit_tasks(requests)\n"),
+        (_M, _RUN_AT, _TRACK + _RUN_AT)]),
+    dict(name='_run_task: entry removed again when the submission fails', edits=[
+        (_M, _REG + _SUBMIT,
+             "        entry = [event, task]\n"
+             "        self._task_service_data[tid] = entry\n"
+             "        try:\n"
+             "            self.submit_tasks([task])\n"
+             "        except Exception:\n"
+             "            del self._task_service_data[tid]\n"
+             "            raise\n")],
+         note='what the change of seed C20-f wanted, without opening the window'),
+    dict(name='_request_cb: pid held in a local inside the lock', edits=[
+        (_D, "                    proc.start()\n                    self._pool[proc.pid] = proc\n",
+             "                    proc.start()\n                    pid = proc.pid\n                    self._pool[pid] = proc\n")]),
+    dict(name='_request_cb: failure report put before the exception fields are logged', edits=[
+        (_D, "                self._log.exception('request failed')\n\n                # free resources again for failed task\n                self._dealloc(task)\n",
+             "                # free resources again for failed task\n                self._dealloc(task)\n                self._log.exception('request failed')\n")]),
+    dict(name='routing through a two-entry table keyed by the test result', edits=[
+        (_M, _ROUTE_LISTS, "        routes = {True: list(), False: list()}\n"),
+        (_M, _ROUTE_IF, "            routes[mode == TASK_EXECUTABLE].append(task)\n"),
+        (_M, _ROUTE_CALLS, "        self._submit_executable_tasks(routes[True])\n        self._submit_raptor_tasks(routes[False])")]),
+    dict(name='routing through a table keyed by names, bucket held in a local', edits=[
+        (_M, _ROUTE_LISTS, "        routes = {'exe': [], 'raptor': []}\n"),
+        (_M, _ROUTE_IF, "            key    = 'exe' if mode == TASK_EXECUTABLE else 'raptor'\n            bucket = routes[key]\n            bucket.append(task)\n"),
+        (_M, _ROUTE_CALLS, "        self._submit_executable_tasks(routes['exe'])\n        self._submit_raptor_tasks(routes['raptor'])")]),
+    dict(name='routing by a conditional expression between the two lists', edits=[
+        (_M, _ROUTE_IF, "            (executable_tasks if mode == TASK_EXECUTABLE else raptor_tasks).append(task)\n")]),
 ]
 
 from .c14 import corpus_variants          # noqa: E402
